@@ -8,7 +8,7 @@ IDLE/CONNECTING/READY/TRANSIENT_FAILURE/other, also from stopped or removed chil
 expirations, cache expirations and passages of time, in any order.
 "usable" = READY, IDLE, or CONNECTING with its init timer still armed (`usable`).
 -/
-import GrpcProofs.Lemmas.Priority
+import GrpcProofs.Lemmas.PriorityB
 namespace GrpcProofs.C39
 open GrpcModel.Priority GrpcProofs.Lemmas.Priority
 
@@ -136,6 +136,15 @@ theorem parent_picker_is_in_use_childs {s : St} (hr : Reach s) :
     obtain ⟨_, u, _, c, _, h2, h3, _, _, _, _, h8⟩ := (hg.sel hne).ex
     exact ⟨u, c, h2, h3, h8⟩
   · exact hg.none
+
+/-- "Within its initial connection timeout" really is initial: a child's init timer is armed only
+    while it has not reported TRANSIENT_FAILURE since it was last READY/IDLE (or since it was
+    started), so a child that failed and re-connects is not given a second timeout. -/
+theorem init_timer_only_before_failure {s : St} (hr : Reach s) {c : Child} (hc : c ∈ s.children) :
+    (c.reportedTF = true → c.timer = none) ∧ (c.started = false → c.reportedTF = false ∧ c.timer = none ∧ c.st = initState) := by
+  have h := reach_good2 hr
+  have h1 := h.ti c hc
+  refine ⟨h1.1, fun hs => ⟨h1.2 hs, (h.good.st.idle c hc hs).2, (h.good.st.idle c hc hs).1⟩⟩
 
 -- non-vacuity: fail-over, fall-back and recovery on a concrete history
 def demo : List Op := [.update [1, 2, 3] [(1, 0), (2, 0), (3, 1)], .child 1 1, .child 1 3, .child 2 1, .advance 10000, .timer 2]
